@@ -26,6 +26,7 @@ func init() {
 	register("C14", monC14)
 	register("C15", monC15)
 	register("C17", monC17)
+	register("C18", monC18)
 	register("C19", monC19)
 }
 
@@ -1149,6 +1150,75 @@ func monC12(tr *Trace, br map[string]int) (out []Violation) {
 			if got, ok := s.Index[k]; !ok || got != id {
 				out = append(out, viol("C12", "lookup-misses-pending", c.i, "pending record %s (id %d) not found by request id", k, id))
 			}
+		}
+		// the same at the query servers: Query/UTXR answers exactly for pending request ids, with that record; Query/UTXRs lists the pending records
+		for k, got := range s.QLookup {
+			var want *Utxr
+			for _, u := range s.Utxrs {
+				if fmt.Sprintf("%d|%s", u.Tenant, u.Req) == k {
+					want = u
+				}
+			}
+			br["c12:query-lookups"]++
+			switch {
+			case want == nil && got != nil:
+				out = append(out, viol("C12", "query-answers-nonpending", c.i, "Query/UTXR %s answers with a record (request id %s) although none is pending under that id", k, got.Req))
+			case want != nil && got == nil:
+				out = append(out, viol("C12", "query-misses-pending", c.i, "Query/UTXR %s finds nothing although record %d is pending", k, want.Id))
+			case want != nil && (got.Req != want.Req || got.Amt.Cmp(want.Amt) != 0 || got.Created != want.Created || got.Nft != want.Nft):
+				out = append(out, viol("C12", "query-wrong-record", c.i, "Query/UTXR %s returns request id %s amount %s, pending is %s amount %s", k, got.Req, got.Amt, want.Req, want.Amt))
+			}
+		}
+		for t, items := range s.QList {
+			var want []string
+			for _, u := range s.Utxrs {
+				if u.Tenant == t {
+					want = append(want, u.Req+"*"+u.Amt.String())
+				}
+			}
+			if strings.Join(want, ",") != strings.Join(items, ",") {
+				out = append(out, viol("C12", "query-list-differs", c.i, "Query/UTXRs of tenant %d lists %s, pending are %s", t, strings.Join(items, ","), strings.Join(want, ",")))
+			}
+		}
+	})
+	return out
+}
+
+// ---------- C18 (chain engine) ----------
+
+// commitment is the monitor's own reading of the statement: SHA-256 over the salt followed by the revealed entries, exactly as revealed.
+func commitment(salt string, vdTok string) string {
+	var sb strings.Builder
+	sb.WriteString(salt)
+	if vdTok != "-" {
+		for _, part := range strings.Split(vdTok, ";") {
+			if len(part) <= 2 {
+				continue
+			}
+			for _, e := range strings.Split(part[2:], ",") {
+				sb.WriteString(decTok(e))
+			}
+		}
+	}
+	h := sha256.Sum256([]byte(sb.String()))
+	return strings.ToUpper(hex.EncodeToString(h[:]))
+}
+
+// every accepted reveal opens the prevote the same validator holds: same round, and the prevote is the commitment to (salt, entries)
+func monC18(tr *Trace, br map[string]int) (out []Violation) {
+	walk(tr, func(c *ctxStep) {
+		if c.op[0] != "vote" || len(c.op) < 6 || c.res[0] != "ok" {
+			return
+		}
+		br["c18:accepted-reveal"]++
+		held, ok := c.pre.Prevotes[c.op[2]]
+		if !ok {
+			out = append(out, viol("C18", "reveal-without-prevote", c.i, "vote of %s accepted although it holds no prevote", c.op[2]))
+			return
+		}
+		want := commitment(decTok(c.op[3]), c.op[5])
+		if !strings.EqualFold(decTok(held), want) {
+			out = append(out, viol("C18", "reveal-does-not-open-prevote", c.i, "vote of %s (salt %s, data %s) accepted against prevote %s; its commitment is %s", c.op[2], c.op[3], c.op[5], held, want))
 		}
 	})
 	return out
